@@ -5,9 +5,8 @@
    The model is tied to the C by vlib/xmlfront.py (harness/xmlfront_harness.c, driver/XmlFront_driver.ml).
 
    (a) the error field      C02f_error_never_cleared (full), C02f_sticky_error, C02f_sticky_error_cursor (full for what the
-                            code does), C02f_sticky_error_strict_refuted_code / _tree: the strict reading ("no later event
-                            changes the tree or the error") is REFUTED by the end-element callback, which decodes the cached
-                            base64 text of `current` before it checks the error field
+                            code does), C02f_flush_precedes_depth_check, C02f_binary_mixed_content_in_order (the cached
+                            base64 text of a binary-flagged `current` is decoded when a child starts, since /repo c0648d3)
    (b) refusal              C02f_not_well_formed_is_error, C02f_no_language_is_error, C02f_refused_conversion (full)
    (c) shape of the tree    C02f_tree_shape, C02f_tree_shape_all_levels, C02f_element_nesting_bound (full; the bound is on
                             the ancestors of ELEMENT nodes, which is what the C checks: CDATA nodes are not depth-checked)
@@ -54,20 +53,36 @@ Theorem C02f_sticky_error_cursor :
 Proof. exact failed_cursor_frozen_step. Qed.
 Print Assumptions C02f_sticky_error_cursor.
 
-(* REFUTED (strict reading): the recorded error code is replaced ... *)
-Theorem C02f_sticky_error_strict_refuted_code :
-  exists evs e, let c := run main_table no_sub [] init_ctx evs in
-                c_error c = E_NESTING_TOO_DEEP /\ c_error (step main_table no_sub [] c e) = E_B64_DEC.
-Proof. exact sticky_error_code_refuted. Qed.
-Print Assumptions C02f_sticky_error_strict_refuted_code.
+(* Until /repo c0648d3 the strict reading ("no later event changes the tree or the error") was REFUTED by two witnesses:
+   the text cached on a binary-flagged `current` survived an error recorded by the start-element callback, and the
+   end-element callback decodes that cache before it looks at the error field.  Since that commit the start-element
+   callback flushes the cache itself, before it can record an error: the two witnesses are gone, and what they have
+   become is stated here (bad base64 is reported at the child's start tag, before the depth check; good base64 is a
+   text node in front of the refused child and the end-element event changes nothing any more). *)
+Theorem C02f_flush_precedes_depth_check :
+  c_error (run main_table no_sub [] init_ctx (deep_binary "!!!!")) = E_B64_DEC /\
+  (let c := run main_table no_sub [] init_ctx (deep_binary "YWJj") in
+   c_error c = E_NESTING_TOO_DEEP /\ top_kids c = 1%nat /\
+   step main_table no_sub [] c (EvEndElement (bs "x") 0) = c).
+Proof. exact flush_precedes_depth_check. Qed.
+Print Assumptions C02f_flush_precedes_depth_check.
 
-(* ... and a text node is added to the tree after the error was recorded (the tree is destroyed afterwards anyway:
-   C02f_not_well_formed_is_error / failed_run_is_error, so this is not a violation of C02) *)
-Theorem C02f_sticky_error_strict_refuted_tree :
-  exists evs e, let c := run main_table no_sub [] init_ctx evs in
-                c_error c = E_NESTING_TOO_DEEP /\ c_spine (step main_table no_sub [] c e) <> c_spine c.
-Proof. exact sticky_error_tree_refuted. Qed.
-Print Assumptions C02f_sticky_error_strict_refuted_tree.
+(* each run of base64 text of a binary-flagged element is decoded on its own and keeps its place among the children *)
+Theorem C02f_binary_mixed_content_in_order :
+  let c := run main_table no_sub [] init_ctx
+             [EvStartElement (bs "AirSync:|Sync") [] 0; EvStartElement (bs "Email2:|ConversationId") [] 0;
+              EvCharacters (bs "Zg=="); EvStartElement (bs "AirSync:|Add") [] 0; EvEndElement (bs "AirSync:|Add") 0;
+              EvCharacters (bs "b28="); EvEndElement (bs "Email2:|ConversationId") 0] in
+  c_error c = WBXML_OK /\
+  match c_spine c with
+  | [f] => match kids_of f with
+           | [NElt _ _ [NText a; NElt _ _ []; NText b]] => a = bs "f" /\ b = bs "oo"
+           | _ => False
+           end
+  | _ => False
+  end.
+Proof. exact binary_mixed_content_in_order. Qed.
+Print Assumptions C02f_binary_mixed_content_in_order.
 
 (* ------------------------------------------------------------------ (b) refusal *)
 
@@ -153,10 +168,12 @@ Proof. exact document_balance. Qed.
 Print Assumptions C02f_document_balance.
 
 (* the nesting check compares the length of the parent chain of `current` (recomputed at every event), so it fires
-   exactly for the 1000th nesting level, whatever was skipped before *)
+   exactly for the 1000th nesting level, whatever was skipped before (provided the base64 text cached on a
+   binary-flagged `current`, which is decoded first since /repo c0648d3, is good: otherwise that error is reported) *)
 Theorem C02f_nesting_check_uses_parent_chain :
   forall main sub input c name attrs idx,
   c_error c = WBXML_OK -> c_skip_lvl c = 0 -> c_spine c <> [] -> is_embedded_name name = false ->
+  c_error (flush_binary c) = WBXML_OK ->
   (c_error (step main sub input c (EvStartElement name attrs idx)) = E_NESTING_TOO_DEEP <-> (1000 <= List.length (c_spine c))%nat).
 Proof. exact nesting_check_exact. Qed.
 Print Assumptions C02f_nesting_check_uses_parent_chain.
